@@ -17,6 +17,11 @@ fn varint(data: &[u8], pos: &mut usize) -> Option<i32> {
             return None;
         }
         if b & 0x80 == 0 {
+            // a request carries the encoding the protocol's writer produces: no group of zero bits after the last significant one
+            // (VarInt.tla EncShape); a longer spelling of the same number is not "the protocol's bytes"
+            if i > 0 && b == 0 {
+                return None;
+            }
             return Some(r as i32);
         }
     }
